@@ -36,6 +36,13 @@ CHECKS = {
                      "the tier's bounds, every read compared with an environment-chain reference model",
                 note="trusted: the reference scope model in vf/checks/c03.py; excluded corner listed in assumptions",
                 technique="bounded exhaustive enumeration of programs against an environment-chain reference model"),
+    "C09": dict(level="exploration", ref="3/C09",
+                text="every registered operator signature of the live registry x per-type boundary-value pools (incl. all arrays of length <=2/3 over one "
+                     "representative per type) executed through the VM in forked ASan/UBSan children with watchdog, instruction budget and "
+                     "allocation limit; any outcome other than value / SQF diagnostic is a violation",
+                note="oracle = sanitizers + libstdc++ assertions + process status; pools are finite (values outside them are not covered); "
+                     "signature of a finding = (operator signature, value-independent crash class)",
+                technique="exhaustive enumeration of operator signatures x finite boundary pools with sanitizers as oracle"),
 }
 
 PENDING_REASON = "check not built yet in this round (planned, see DESIGN.md section 3)"
